@@ -43,9 +43,15 @@ pub fn query_goal(c: &Case) -> Goal {
 
 /// Drive the engine with next_solution until None (or the answer cap), then re-ask.
 pub fn run_engine(c: &Case, kb: &KnowledgeBase, max_answers: usize, reasks: usize) -> EngineRun {
+    let query = match guarded(|| Rc::new(query_goal(c))) { Ok(q) => q, Err(p) => { return EngineRun { events: vec![], exhausted: false, panic: Some(p), reasks: vec![], shown: vec![] }; } };
+    run_engine_with(&query, kb, max_answers, reasks)
+}
+
+/// Same, with a query object that already exists (possibly used for an earlier search).
+pub fn run_engine_with(query: &Rc<Goal>, kb: &KnowledgeBase, max_answers: usize, reasks: usize) -> EngineRun {
     let mut run = EngineRun { events: vec![], exhausted: false, panic: None, reasks: vec![], shown: vec![] };
     let _ = take_output();
-    let query = match guarded(|| Rc::new(query_goal(c))) { Ok(q) => q, Err(p) => { run.panic = Some(p); return run; } };
+    let query = Rc::clone(query);
     let sn = make_base_node(Rc::clone(&query), kb);
     let mut answers = 0;
     loop {
@@ -190,8 +196,12 @@ fn solve_all_check(c: &Case, kb: &KnowledgeBase, refr: &RefResult, eng: &EngineR
     if !refr.complete || !eng.exhausted { return Ok(()); }
     let query = Rc::new(query_goal(c));
     let sn = make_base_node(Rc::clone(&query), kb);
+    let t0 = std::time::Instant::now();
     let got = solve_all(sn);
+    let ms = t0.elapsed().as_millis();
     let _ = take_output();
+    // a timeout report is legitimate when a second really passed (machine stall): inconclusive
+    if got.iter().any(|s| s.starts_with("Query timed out")) && ms >= 1000 { return Err(format!("STALL: solve_all really took {} ms", ms)); }
     // independent formatter: `$Var = value` for each top-level variable argument, in order;
     // the value text is the engine's own Display of the answer that next_solution gave
     // (already checked against the reference), because rendering is C19's subject
@@ -290,7 +300,8 @@ impl Workload for Search {
         }
         let kb = program_to_kb(&c.prog);
         let reasks = if self.which == Which::C05 { if self.tier == Tier::Quick { 3 } else { 5 } } else { 0 };
-        let eng = run_engine(&c, &kb, MAX_ANSWERS, reasks);
+        let query = match guarded(|| Rc::new(query_goal(&c))) { Ok(q) => q, Err(p) => { out.violate(self.sig("panic", &c), witness(&c, "building the query panicked", &p.msg)); return out; } };
+        let eng = run_engine_with(&query, &kb, MAX_ANSWERS, reasks);
         if let Some(p) = &eng.panic {
             out.violate(self.sig("panic", &c), witness(&c, "engine panicked", &format!("{} at {}", p.msg, p.loc)));
             return out;
@@ -302,6 +313,7 @@ impl Workload for Search {
                     out.evals += 1;
                     match guarded(|| solve_all_check(&c, &kb, &refr, &eng)) {
                         Ok(Ok(())) => out.count("solve_all_checked", 1),
+                        Ok(Err(d)) if d.starts_with("STALL") => { out.verdict = Verdict::Inconclusive(d); return out; }
                         Ok(Err(d)) => { out.violate(self.sig("solve_all", &c), witness(&c, "solve_all differs", &d)); return out; }
                         Err(p) => { out.violate(self.sig("solve_all-panic", &c), witness(&c, "solve_all panicked", &p.msg)); return out; }
                     }
@@ -310,6 +322,30 @@ impl Workload for Search {
             Which::C04 => {
                 if let Err(d) = compare(&refr, &eng, true) { out.violate(self.sig("output", &c), witness(&c, "output/answer event sequence differs from the reference", &d)); return out; }
             }
+            _ => {}
+        }
+        // A second search with the *same query object* on a changed knowledge base (one clause
+        // removed, or a fact added) must again give the reference's observations for that
+        // knowledge base: nothing an earlier search computed may be carried over.
+        if matches!(self.which, Which::C01 | Which::C02 | Which::C03 | Which::C04) && idx % 2 == 0 {
+            let mut r = Rng::for_case(self.seed, 55, idx);
+            let mut c2 = c.clone();
+            if c2.prog.clauses.len() >= 2 && r.chance(2, 3) { let k = r.below(c2.prog.clauses.len()); c2.prog.clauses.remove(k); }
+            else { let k = r.below(c2.prog.clauses.len()); let mut cl = c2.prog.clauses[k].clone(); cl.body = None; c2.prog.clauses.push(cl); }
+            if let Ok(refr2) = rinterp::solve(&c2.prog, &c2.qname, &c2.qargs, 20_000, MAX_ANSWERS) {
+                let kb2 = program_to_kb(&c2.prog);
+                let eng2 = run_engine_with(&query, &kb2, MAX_ANSWERS, 0);
+                out.evals += 1;
+                if let Some(p) = &eng2.panic { out.violate(self.sig("panic-second-search", &c), witness(&c2, "engine panicked in a second search with the same query object", &format!("{} at {}", p.msg, p.loc))); return out; }
+                if let Err(d) = compare(&refr2, &eng2, self.which == Which::C04) {
+                    out.violate(self.sig("second-search", &c), witness(&c2, "a second search with the same query object on a changed knowledge base differs from the reference", &format!("first knowledge base: {} | {}", show_program(&c.prog), d)));
+                    return out;
+                }
+                out.count("second_searches_same_query_object", 1);
+            }
+        }
+        match self.which {
+            Which::C01 | Which::C02 | Which::C03 | Which::C04 => {}
             Which::C05 => {
                 if !eng.exhausted { out.verdict = Verdict::Skipped("answer cap reached before exhaustion"); return out; }
                 out.evals = eng.reasks.len() as u64;
@@ -325,18 +361,57 @@ impl Workload for Search {
                 let query = Rc::new(query_goal(&c));
                 let sn = make_base_node(Rc::clone(&query), &kb);
                 let mut n = 0;
+                let mut stalled = false;
                 loop {
+                    let t0 = std::time::Instant::now();
                     let s = solve(Rc::clone(&sn)); n += 1;
+                    if s.starts_with("Query timed out") && t0.elapsed().as_millis() >= 1000 { stalled = true; break; }
                     if s == "No more." || n > MAX_ANSWERS + 2 { break; }
                 }
                 let _ = take_output();
+                if stalled { out.verdict = Verdict::Inconclusive("solve() really took more than a second (machine stall)".into()); return out; }
                 for i in 0..2 {
+                    let t0 = std::time::Instant::now();
                     let s = solve(Rc::clone(&sn));
                     let o = take_output();
                     out.evals += 1;
+                    if s.starts_with("Query timed out") && t0.elapsed().as_millis() >= 1000 { out.verdict = Verdict::Inconclusive("solve() really took more than a second (machine stall)".into()); return out; }
                     if n <= MAX_ANSWERS + 2 && (s != "No more." || !o.is_empty()) {
                         out.violate(self.sig("reask-solve", &c), witness(&c, "solve() after `No more.` produced an answer or output", &format!("call #{}: {:?} output {:?}", i + 1, s, o)));
                         return out;
+                    }
+                }
+                // the same node through solve_all(): an exhausted query has no answers left to list
+                if n <= MAX_ANSWERS + 2 {
+                    let t0 = std::time::Instant::now();
+                    let all = solve_all(Rc::clone(&sn));
+                    let o = take_output();
+                    out.evals += 1;
+                    if all.iter().any(|s| s.starts_with("Query timed out")) && t0.elapsed().as_millis() >= 1000 { out.verdict = Verdict::Inconclusive("solve_all() really took more than a second (machine stall)".into()); return out; }
+                    if !all.is_empty() || !o.is_empty() {
+                        out.violate(self.sig("reask-solve_all", &c), witness(&c, "solve_all() on an exhausted query listed answers or wrote output", &format!("returned {:?} output {:?}", all, o)));
+                        return out;
+                    }
+                }
+                // and the other way round: after solve_all() has listed everything, the query is exhausted
+                {
+                    let sn2 = make_base_node(Rc::new(query_goal(&c)), &kb);
+                    let t0 = std::time::Instant::now();
+                    let all = solve_all(Rc::clone(&sn2));
+                    let _ = take_output();
+                    let timed_out = all.iter().any(|s| s.starts_with("Query timed out"));
+                    if timed_out && t0.elapsed().as_millis() >= 1000 { out.verdict = Verdict::Inconclusive("solve_all() really took more than a second (machine stall)".into()); return out; }
+                    if !timed_out && all.len() < MAX_ANSWERS {
+                        let s1 = solve(Rc::clone(&sn2));
+                        let r2 = next_solution(Rc::clone(&sn2));
+                        let o = take_output();
+                        out.evals += 2;
+                        if s1 != "No more." || r2.is_some() || !o.is_empty() {
+                            out.violate(self.sig("reask-after-solve_all", &c), witness(&c, "a request after solve_all() had listed all answers produced an answer or output",
+                                        &format!("solve_all listed {} answers; then solve() = {:?}, next_solution() = {}, output {:?}", all.len(), s1, if r2.is_some() { "an answer" } else { "None" }, o)));
+                            return out;
+                        }
+                        out.count("reasks_after_solve_all", 1);
                     }
                 }
             }
